@@ -25,7 +25,7 @@ RULE = ("(template, substrate, direction, strategy, hydrogen mode) with template
         "hand-made rule, or a synthetic ITS graph planted on a random host; non-trivial = at least one glued result and a "
         "template with >= 2 changed bonds; distinct = distinct (template, substrate, configuration)")
 EXHAUSTIVE = {"quick": False, "thorough": False}
-EXPLANATION = ("39 theorems (coq/props/C03.v) about the Gallina model of SynReactor._glue_graph/_node_glue, _invert_template, _explicit_h, "
+EXPLANATION = ("40 theorems (coq/props/C03.v) about the Gallina model of SynReactor._glue_graph/_node_glue, _invert_template, _explicit_h, "
                "h_to_explicit and SynRule.__init__ (implicit-template mode; default mode for templates without explicit H atoms): for every host, rule and valid match the reactant side of the glued ITS "
                "(on its_decompose, what _to_smarts serialises) is the substrate; element counts incl. hydrogen and total charge agree on both "
                "sides for a balanced rule (and differ by exactly the rule's imbalance otherwise); changed bonds = image of the rule's bonds with "
@@ -211,6 +211,8 @@ API_SEEDS = [
     ("ring10", "[C:1][Br:2].[N:3]>>[C:1][N+:3].[Br-:2]", "I", "C1C2C3C4C5C6C7C8C9C%10C(Br)C%10C9C8C7C6C5C4C3C2C1.N", None),
     ("big", "[C:1][Br:2].[N:3]>>[C:1][N+:3].[Br-:2]", "I", "CCCCCCCCCCCCBr.CCCCCCCCCCCN(C)C", None),
 ]
+# >= 100 atoms (three-digit node ids, two matches far apart); only a few forms each, they are the expensive ones
+BIG100 = ("big100", "[C:1][Br:2].[N:3]>>[C:1][N+:3].[Br-:2]", "I", "BrC" + "C" * 60 + "CBr." + "C" * 45 + "N(C)C")
 
 
 def _relabel_smiles(smi, rng, how):
@@ -277,8 +279,9 @@ def _api_cases(rng, full):
         if bsub:
             out.append(base(name, r, mode, _relabel_smiles(bsub, rng, "partial"), inv=True, family="bwd-partial"))
             out.append(base(name, r, "I" if mode == "I" else mode, bsub, inv=True, family="bwd-reads", reads=3))
-            if mode == "I":
-                out.append(base(name, r, mode, bsub, inv=True, family="bwd-synrule", tpl_form="synrule"))
+            out.append(base(name, r, mode, bsub, inv=True, family="bwd-synrule", tpl_form="synrule"))
+            if mode == "E":
+                out.append(base(name, r, "S", bsub, inv=True, family="bwd-synrule", tpl_form="synrule"))
         # --- constructor options (every one that exists; partial=True belongs to the partial-matching engine, outside C03)
         for opts in (dict(strategy_enum=True), dict(canonicaliser=True), dict(via="from_smiles"), dict(via="positional"),
                      dict(embed_pre_filter=True), dict(embed_threshold=10000), dict(automorphism=True),
@@ -316,6 +319,11 @@ def _api_cases(rng, full):
                 base(name, r, mode, sub, family="step", tpl_ref="T")]))
             out.append(hist("fwd-then-bwd", [base(name, r, mode, sub, family="step", reads=2),
                                             base(name, r, mode, bsub, inv=True, family="step", reads=3)]))
+    # --- >= 100 atoms
+    name, r, mode, sub = BIG100
+    out.append(base(name, r, mode, sub, family="size-100"))
+    out.append(base(name, r, mode, _relabel_smiles(sub, rng, "partial"), family="size-100-partial"))
+    out.append(base(name, r, mode, _graph_form(sub, rng), family="size-100-graph"))
     # --- degenerate values
     r0, m0 = API_SEEDS[0][1], "E"
     for sub in ("C", "O", "CCO.O", "[Br-]", "CBr.O", "BrC(Br)(Br)Br.O", "[CH3:0]CBr.O", "[CH3:0][CH2:0]Br.[OH2:0]", "CC[C:1](=O)OC.OCC", ""):
@@ -471,7 +479,8 @@ def _impl_one(case):
     left = rule.left.raw
     mode = case.get("mode", "E")
     pat = h_to_implicit(left) if has_XH(left) else left
-    obs = [[K.rc_obs(rule.rc.raw, mode != "I"), K.mol_obs(left), K.mol_obs(rule.right.raw)], 1 if rec.flag else 0, K.mol_obs(pat)]
+    stripped = mode != "I" and not (case.get("tpl_form") == "synrule" and case.get("invert"))   # an inverted SynRule object is not prepared again
+    obs = [[K.rc_obs(rule.rc.raw, stripped), K.mol_obs(left), K.mol_obs(rule.right.raw)], 1 if rec.flag else 0, K.mol_obs(pat)]
     show_ex = mode == "E" and rec.its_err is None
     after = list(rec.its_list)
     k = 0
@@ -543,7 +552,7 @@ def coq_case(case):
         cr = "None" if remaps is None else "(Some %s)" % K.cl([K.cl(["(%s, %s)" % (K.cN(p), K.cN(h)) for p, h in x]) for x in remaps])
         calls.append("(%s, %s)" % (cm, cr))
     mode = case.get("mode", "E")
-    t = "run_c03w %s %s %s %s %s %s" % (K.cb(case.get("invert", False)), K.cb(mode == "I"), K.cb(mode == "E"), host, tpl, K.cl(calls))
+    t = "%s %s %s %s %s %s %s" % ("run_c03r" if case.get("tpl_form") == "synrule" else "run_c03w", K.cb(case.get("invert", False)), K.cb(mode == "I"), K.cb(mode == "E"), host, tpl, K.cl(calls))
     if case.get("reads"):
         return "L [%s; tbool true]" % t
     return t
@@ -893,7 +902,7 @@ def gen_cases(tier, rng):
     return prepare_all(cases)
 
 
-LEVEL_TEXT = ("Machine-checked proof (Coq, 39 theorems, all closed under the global context) over an executable model of gluing a rule onto a "
+LEVEL_TEXT = ("Machine-checked proof (Coq, 40 theorems, all closed under the global context) over an executable model of gluing a rule onto a "
               "substrate along a match (SynReactor._glue_graph/_node_glue), _invert_template, _explicit_h, h_to_explicit and SynRule.__init__ "
               "(implicit-template mode; default mode for templates without explicit hydrogen atoms): for EVERY substrate graph, rule graph and valid match (boolean hypotheses wf_hostb, wf_rcb, match_rcb) "
               "(a) the reactant molecule graph of the glued ITS is the substrate (same atoms in the same order, same bonds), (b) every element "
